@@ -249,13 +249,27 @@ def gen_case(rnd):
         gr = G(cfg=Cfg(max_depth=2, theories={"bool", "int", "real", "bv", "str", "sort", "arr"}, bv_widths=[1, 2, 4], nsyms=1, sym_offset=7), rnd=rnd)
         for (fn, ft) in g.rnd.sample(funs, min(2, len(funs))):
             params = [("fp%d_%s" % (i, B.tystr(t)), t) for i, t in enumerate(ft[2])]
+            if g.pct(50):
+                # formal parameters named like symbols of the formula (they may occur in the actual arguments:
+                # the parameters are bound simultaneously)
+                used = set()
+                named = []
+                for i, t in enumerate(ft[2]):
+                    cands = [s_ for s_ in allsyms if s_[1] == t and s_ not in used]
+                    if cands:
+                        c_ = g.rnd.choice(cands)
+                        used.add(c_)
+                        named.append(c_)
+                    else:
+                        named.append(params[i])
+                params = named
             # body over the formal parameters only
             body = gr.term(ft[1], 2)
             # rename the symbols of the body to formal parameters of the same type where possible
             ren = {}
             for s in sorted(all_symbols(body), key=repr):
                 same = [p for p in params if p[1] == s[1]]
-                ren[s] = same[0] if same else None
+                ren[s] = g.rnd.choice(same) if same else None
             if any(v is None for v in ren.values()):
                 body = gr.constant(ft[1]) if gr.has_consts(ft[1]) else None
                 if body is None:
